@@ -28,7 +28,7 @@ func registerBW() {
 	}
 	real := append([]string{"sourcebundle.Builder / Bundle / OpenDir / WriteArchive / ExtractArchive", "golang.org/x/mod dirhash", "go-versions (membership and ordering trusted)"}, realCommon...)
 	plans["C08"] = &Plan{ID: "C08", Level: "exploration",
-		Legs: []Leg{{World: "bw", Profile: "clean", Quick: 3500, Weight: 3}, {World: "bw", Profile: "small", Quick: 1500, Weight: 1, Index: true}},
+		Legs: []Leg{{World: "bw", Profile: "clean", Quick: 3500, Weight: 3}, {World: "bw", Profile: "small", Quick: 1500, Weight: 1, Index: true}, {World: "bw", Profile: "faultsweep", Quick: 8, Weight: 1}},
 		Rule: "each evaluation = one generated world (<=6 remote packages with module locations, deps.F1/F2 declarations read back by the finder stubs through the fs.FS, <=3 registry packages x <=5 versions, local/remote/registry edges incl. cycles, diamonds, self-references, sub-paths on both sides of a registry hop) built by the real Builder from 1-6 Add calls issued by 1-3 client tasks; after an error-free build every pair of the reference closure must be found, inside the root, existing iff fetched, with exactly the fetched (rule-filtered) content, registry lookups equal to registry answer joined with caller sub-path, metadata unchanged. distinct = scenario hash; non-trivial = >=2 packages, a registry hop, a fault or >=2 tasks.",
 		Assume: []string{"world addresses are generated in canonical spelling (asserted at run time, else the run is skipped)", "fetcher metadata always has a non-empty commit id when present"},
 		Real:   real, Sim: bwSim}
@@ -38,7 +38,7 @@ func registerBW() {
 		Assume: []string{"finder calls are keyed by (package directory, sub-path, finder); coalesced twin packages share a key and the expected count is the number of model pairs mapping to it"},
 		Real:   real, Sim: bwSim}
 	plans["C17"] = &Plan{ID: "C17", Level: "exploration",
-		Legs: []Leg{{World: "bw", Profile: "versions", Quick: 3000, Weight: 3}, {World: "bw", Profile: "clean", Quick: 1500, Weight: 1}, {World: "bw", Profile: "errors", Quick: 1000, Weight: 1}},
+		Legs: []Leg{{World: "bw", Profile: "versions", Quick: 3000, Weight: 3}, {World: "bw", Profile: "clean", Quick: 1500, Weight: 1}, {World: "bw", Profile: "errors", Quick: 1000, Weight: 1}, {World: "bw", Profile: "faultsweep", Quick: 8, Weight: 1}},
 		Rule: "each evaluation = one build with registry requests (several against the same package, list order permuted, ruby-style constraints incl. exact, pessimistic, ranges, disjoint, pre-release); the versions the bundle holds and the versions the registry client was asked for must equal the brute-force maximum of offered-and-allowed per request; final sources use exactly their version; an empty intersection must produce an error diagnostic; recorded deprecation equals the registry's for that version.",
 		Assume: []string{"versions.Set.Has and version comparison are go-versions' and trusted; no 0.0.0, no versions differing only in build metadata, no duplicates"},
 		Real:   real, Sim: bwSim}
@@ -96,7 +96,7 @@ func bwFaultSweep(seed uint64) []scen {
 	// fault-free base with crash probes at every callback boundary and the torn-manifest sweep
 	add(func(c *bw.Scenario) { c.Post = []string{"crash-probe", "torn"} })
 	kinds := map[string][]string{
-		"fetch":    {"err", "torn", "cancel", "stall"},
+		"fetch":    {"err", "torn", "cancel", "stall", "cancel-after"},
 		"versions": {"err", "empty"},
 		"source":   {"err"},
 		"find":     {"err-diag"},
